@@ -150,6 +150,7 @@ type BuildCase struct {
 	Constraints     bool              `json:"constraints,omitempty"` // decorate every second relation item with a version constraint in the target format's syntax
 	Signed          bool              `json:"signed,omitempty"`      // sign deb, rpm and apk with the harness' unprotected test keys
 	MTimeEpoch      bool              `json:"mtime_epoch,omitempty"` // package mtime is exactly 1970-01-01T00:00:00Z (MTime must be 0)
+	Again           bool              `json:"again,omitempty"`       // C01: package the same tree a second time under another umask
 	Formats         []string          `json:"formats,omitempty"`
 	RelSrc          bool              `json:"rel_src,omitempty"` // reference sources by relative path (needs cwd = root)
 }
